@@ -93,13 +93,14 @@ const (
 	OFreeEveryOther                   // frees every second visible clean page (A: start parity)
 	OFreeAll                          // frees every visible clean page
 	OAllocFreeNew                     // A: n, B: which (0 first,1 middle,2 last): AllocN(n) then free one of the new pages
+	OFreeRun                          // A: index of the first visible page, B: count: frees B consecutive visible clean pages
 )
 
 var opNames = map[OpKind]string{
 	OBegin: "Begin", OCommit: "Commit", ORollback: "Rollback", OCloseTx: "CloseTx", OAlloc: "Alloc",
 	OAllocAvail: "AllocAvail", OWrite: "Write", OFree: "Free", OFlushPage: "FlushPage", OFlushTx: "FlushTx",
 	OCheckpoint: "Checkpoint", OSetRoot: "SetRoot", OReopen: "Reopen", OReopenWith: "ReopenWith",
-	OWriteAll: "WriteAll", OFreeEveryOther: "FreeEveryOther", OFreeAll: "FreeAll", OAllocFreeNew: "AllocFreeNew",
+	OWriteAll: "WriteAll", OFreeEveryOther: "FreeEveryOther", OFreeAll: "FreeAll", OAllocFreeNew: "AllocFreeNew", OFreeRun: "FreeRun",
 }
 
 // Write modes.
